@@ -215,6 +215,7 @@ struct Hist
   bool smallQueue = false, smallSnd = false;
   std::map<std::string, uint64_t> feat; // driver-side feature counters (signature + evidence)
   double waitScale = 1.0;
+  int iorasRcvBuf = 4 * 1024 * 1024; // --rcvbuf: only lowered by the self-test of the kernel-drop excuse
   bool deliveryTimedOut = false;
 
   Hist(uint64_t s, uint64_t i, const std::string &md, bool iso, bool vb)
@@ -227,7 +228,7 @@ struct Hist
   bool setup()
   {
     cfg = TransportConfig{};
-    cfg.soRcvBuf = 4 * 1024 * 1024;
+    cfg.soRcvBuf = iorasRcvBuf;
     cfg.useEdgeTriggered = !r.chance(0.25);
     cfg.batching.enabled = r.chance(0.25);
     smallSnd = r.chance(0.4);
@@ -883,6 +884,8 @@ int main(int argc, char **argv)
   {
     O.line("{\"t\":\"begin\",\"i\":" + std::to_string(i) + "}");
     Hist h(seed, i, mode, isolated, verbose);
+    h.iorasRcvBuf = int(a.u("rcvbuf", 4 * 1024 * 1024));
+    if (a.has("rcvbuf")) h.waitScale = 0.1; // drops are expected there: do not sit out the full delivery watchdog
     h.run();
   }
   auto &E = c06::eg();
